@@ -748,6 +748,44 @@ func LookupEnv(key string) (string, bool) {
 	return v, ok
 }
 
+// Setenv replaces os.Setenv: the library changes the simulated environment.
+func Setenv(key, value string) error {
+	if W == nil {
+		return os.Setenv(key, value)
+	}
+	if W.Env == nil {
+		W.Env = map[string]string{}
+	}
+	W.Env[key] = value
+	W.Stat("setenv-by-library")
+	W.Event("setenv %s=%q", key, value)
+	return nil
+}
+
+// Unsetenv replaces os.Unsetenv.
+func Unsetenv(key string) error {
+	if W == nil {
+		return os.Unsetenv(key)
+	}
+	delete(W.Env, key)
+	W.Stat("unsetenv-by-library")
+	W.Event("unsetenv %s", key)
+	return nil
+}
+
+// Clearenv replaces os.Clearenv.
+func Clearenv() {
+	if W == nil {
+		os.Clearenv()
+		return
+	}
+	for k := range W.Env {
+		delete(W.Env, k)
+	}
+	W.Stat("clearenv-by-library")
+	W.Event("clearenv")
+}
+
 // Environ replaces os.Environ.
 func Environ() []string {
 	if W == nil {
